@@ -529,7 +529,7 @@ def gen_query_c37(rng, mi):
     cnt = [nq, 0, 0, 0]
 
     def put_rr(sec, typ, cls, rdata, labels=None):
-        put_name(labels if labels is not None else [rand_label(rng, 6) for _ in range(rng.randint(0, 3))])
+        put_name(labels if labels is not None else [rand_label(rng, 6) for _ in range(rng.randint(0, 3))], allow_ptr=labels is None)
         body.extend(struct.pack(">HHI", typ, cls, rng.randrange(1 << 32)))
         marks["rdlens"].append(12 + len(body))
         body.extend(struct.pack(">H", len(rdata)))
